@@ -9,13 +9,24 @@
 //                         (1 = claims the slot with a CAS, 0 = tests the state with a plain load)
 //   --schedules FILE      replay each schedule of FILE (one JSON array per line)
 //   --random N --seed S [--pct D] [--randprog [--maxops K]]   N random controlled executions
+//   --stress N --seed S   E5: N free-running rounds (real threads, NO controller, the hook points are
+//                         inert), one observation record per round for spec/asyncreq/AsyncReqObs.tla;
+//                         --payload tracked -> a plain payload that zeroes its source on move,
+//                         --payload pod -> a plain payload that is copied by a move (no registry, no
+//                         lock in either: nothing but the AsyncRequest synchronises the threads)
 //
 // The optional type behind AsyncRequest depends on the language standard of the build; the driver
 // reports which move semantics the spec has to use ("mode"): C++14 -> detail::OpResult -> "clear";
 // C++17 -> std::optional -> "husk" (tracked payload) or "copy" (pod payload).
 #include <dispenso/async_request.h>
 
+#include <sched.h>
 #include <unistd.h>
+
+#include <atomic>
+#include <chrono>
+#include <mutex>
+#include <thread>
 
 #include "../ctl/ctl.h"
 #include "../ctl/drv_common.h"
@@ -258,9 +269,334 @@ static int runAll(const drv::Args& a) {
   return 0;
 }
 
+// ------------------------------------------------------------------------------------------------
+// E5: free-running rounds.  Real threads, truly concurrent, no ctl::Controller: the
+// DISPENSO_VERIF_POINTs are inert, so the races INSIDE one step of the specification (between a hook
+// point and the next) are exercised.  3 consumer + 3 producer threads persist over all rounds; a round
+// uses the first nc consumers and the first np producers (1..3 each, drawn from the seed, redrawn every
+// 16 rounds) on a fresh AsyncRequest.  The threads of a round meet at a start barrier, spin a random
+// small offset and run a short random program of their role (consumers: requestUpdate / getUpdate;
+// producers: updateRequested / tryEmplaceUpdate(v), v = 1000 * producer + k, increasing) with random
+// small spins in between.  All operations are non-blocking, so a round always ends.
+// The record holds what the callers of the public API saw, per thread in program order:
+//   {"e":"Round","round":r,"mode":"clear|husk|copy","nc":..,"np":..,"stuck":0,
+//    "c":[[x,...] per consumer]   x < 0: -x consecutive requestUpdate() calls (getUpdate() calls that returned
+//                                 nothing are not listed); x > 0: getUpdate() returned the value x; x = 0:
+//                                 getUpdate() returned an engaged result that holds a moved-from object
+//    "p":[[y,...] per producer]   y > 0: tryEmplaceUpdate(y) returned true; y = 0: updateRequested() returned
+//                                 true; y < 0: -y consecutive calls (of either kind) that returned false
+//    "state": state_ when all threads are done, "drain": [what one more getUpdate() by the main thread returned],
+//    "live": payload objects alive after the AsyncRequest and every result have been destroyed}
+// No C++ oracle: spec/asyncreq/AsyncReqObs.tla judges the records.
+struct LiveCount {
+  static std::atomic<long long>& n() {
+    static std::atomic<long long> v{0};
+    return v;
+  }
+};
+// zeroes its source on move (like ctl::Tracked), no registry
+struct LiteZ {
+  int id;
+  explicit LiteZ(int i) noexcept : id(i) {
+    LiveCount::n().fetch_add(1, std::memory_order_relaxed);
+  }
+  LiteZ(const LiteZ& o) noexcept : id(o.id) {
+    LiveCount::n().fetch_add(1, std::memory_order_relaxed);
+  }
+  LiteZ(LiteZ&& o) noexcept : id(o.id) {
+    o.id = 0;
+    LiveCount::n().fetch_add(1, std::memory_order_relaxed);
+  }
+  ~LiteZ() {
+    LiveCount::n().fetch_sub(1, std::memory_order_relaxed);
+  }
+};
+// a move is a copy (like Pod / int), no registry
+struct LiteC {
+  int id;
+  explicit LiteC(int i) noexcept : id(i) {
+    LiveCount::n().fetch_add(1, std::memory_order_relaxed);
+  }
+  LiteC(const LiteC& o) noexcept : id(o.id) {
+    LiveCount::n().fetch_add(1, std::memory_order_relaxed);
+  }
+  ~LiteC() {
+    LiveCount::n().fetch_sub(1, std::memory_order_relaxed);
+  }
+};
+template <class P>
+static const char* liteMode() {
+#if __cplusplus >= 201703L
+  return std::is_same<P, LiteC>::value ? "copy" : "husk";
+#else
+  return "clear";
+#endif
+}
+
+namespace stress {
+constexpr int kMaxOps = 40;
+constexpr int kThreads = 6; // 0..2 consumers, 3..5 producers
+struct alignas(128) ThreadSlot {
+  std::atomic<long long> go{-1}; // round this thread has to run; -2: shut down
+  int nops = 0;
+  int op[kMaxOps]; // consumers: 0 req, 1 get; producers: 0 chk, v > 0 emp v
+  int res[kMaxOps];
+  int spin0 = 0;
+  uint64_t rng = 0;
+};
+struct Shared {
+  alignas(128) std::atomic<int> arrived{0};
+  alignas(128) std::atomic<int> done{0};
+  alignas(128) void* req = nullptr; // published by go.store(release)
+  int nactive = 0;
+  ThreadSlot th[kThreads];
+};
+static Shared sh; // static: the threads of a stuck round outlive runStress
+static std::atomic<long long> progress{0}; // rounds completed (watchdog)
+static std::atomic<int> finished{0};
+static std::mutex fileMu;
+
+static inline void spin(int n) {
+  for (volatile int k = 0; k < n; ++k) {
+  }
+}
+
+template <class P>
+static void worker(int idx) {
+  using Req = dispenso::AsyncRequest<P>;
+  ThreadSlot& tp = sh.th[idx];
+  const bool consumer = idx < 3;
+  long long seen = -1;
+  for (;;) {
+    long long r;
+    int idle = 0, yields = 0;
+    while ((r = tp.go.load(std::memory_order_acquire)) == seen) {
+      if (++idle > 2000) {
+        idle = 0;
+        if (++yields > 50)
+          usleep(50); // not part of the current rounds
+        else
+          sched_yield();
+      }
+    }
+    if (r == -2)
+      return;
+    seen = r;
+    Req& req = *static_cast<Req*>(sh.req);
+    const int n = sh.nactive;
+    // start barrier: all threads of the round leave it together
+    sh.arrived.fetch_add(1, std::memory_order_acq_rel);
+    idle = 0;
+    while (sh.arrived.load(std::memory_order_acquire) < n) {
+      if (++idle > 20000) {
+        idle = 0;
+        sched_yield();
+      }
+    }
+    uint64_t rng = tp.rng;
+    spin(tp.spin0);
+    for (int k = 0; k < tp.nops; ++k) {
+      uint64_t x = ctl::splitmix(rng);
+      if ((x & 3) == 0)
+        spin((int)((x >> 2) & 31));
+      int o = tp.op[k];
+      if (consumer) {
+        if (o == 0) {
+          req.requestUpdate();
+          tp.res[k] = -2;
+        } else {
+          auto g = req.getUpdate();
+          tp.res[k] = !g.has_value() ? 0 : (g.value().id ? g.value().id : -1);
+        }
+      } else {
+        if (o == 0)
+          tp.res[k] = req.updateRequested() ? -1 : -2;
+        else
+          tp.res[k] = req.tryEmplaceUpdate(o) ? o : 0;
+      }
+    }
+    sh.done.fetch_add(1, std::memory_order_release);
+  }
+}
+} // namespace stress
+
+template <class P>
+static int runStress(const drv::Args& a) {
+  using namespace stress;
+  using Req = dispenso::AsyncRequest<P>;
+  std::string out = a.str("out", "stress.ndjson");
+  FILE* f = fopen(out.c_str(), "w");
+  if (!f)
+    return 2;
+  static char fbuf[1 << 20];
+  setvbuf(f, fbuf, _IOFBF, sizeof(fbuf));
+  long long rounds = a.num("stress", 1000);
+  uint64_t rng = (uint64_t)a.num("seed", 1) * 0x9e3779b97f4a7c15ULL + 11;
+  const char* mode = liteMode<P>();
+  alignas(128) static char reqBuf[sizeof(Req)];
+
+  std::vector<std::thread> threads;
+  for (int i = 0; i < kThreads; ++i)
+    threads.emplace_back(worker<P>, i);
+  // watchdog: a round that does not finish within 10 s is recorded as stuck; the validator rejects it
+  std::thread watchdog([f, mode]() {
+    long long last = -1;
+    auto since = std::chrono::steady_clock::now();
+    while (!finished.load(std::memory_order_acquire)) {
+      std::this_thread::sleep_for(std::chrono::milliseconds(10));
+      long long p = progress.load(std::memory_order_acquire);
+      auto now = std::chrono::steady_clock::now();
+      if (p != last) {
+        last = p;
+        since = now;
+      } else if (now - since > std::chrono::seconds(10) && !finished.load(std::memory_order_acquire)) {
+        std::lock_guard<std::mutex> lk(fileMu);
+        fprintf(f, "{\"e\":\"Round\",\"round\":%lld,\"mode\":\"%s\",\"stuck\":1}\n", p, mode);
+        fflush(f);
+        printf("DRIVER executions=%lld steps=%lld completed=%lld deadlocks=1 diverged=0 stuck=0\n", p + 1, p + 1, p);
+        fflush(stdout);
+        _exit(0);
+      }
+    }
+  });
+
+  long long steps = 0;
+  int nc = 1, np = 1;
+  std::string rec;
+  for (long long r = 0; r < rounds; ++r) {
+    Req* req = new (reqBuf) Req();
+    sh.req = req;
+    if (r % 16 == 0) {
+      nc = 1 + (int)(ctl::splitmix(rng) % 3);
+      np = 1 + (int)(ctl::splitmix(rng) % 3);
+    }
+    sh.nactive = nc + np;
+    // short and long programs; every thread of a round has about the same length so that they overlap
+    int len = 2 + (int)(ctl::splitmix(rng) % (kMaxOps - 1)); // 2..40
+    for (int i = 0; i < kThreads; ++i) {
+      ThreadSlot& tp = sh.th[i];
+      bool consumer = i < 3;
+      bool active = consumer ? i < nc : i - 3 < np;
+      tp.nops = 0;
+      if (!active)
+        continue;
+      tp.nops = len - (int)(ctl::splitmix(rng) % (unsigned)(len / 2));
+      tp.spin0 = (int)(ctl::splitmix(rng) % 100);
+      tp.rng = ctl::splitmix(rng);
+      int next = 1;
+      for (int k = 0; k < tp.nops; ++k) {
+        uint64_t x = ctl::splitmix(rng) % 20;
+        if (consumer)
+          tp.op[k] = x < 9 ? 0 : 1;
+        else
+          tp.op[k] = x < 3 ? 0 : 1000 * (i - 2) + next++;
+        tp.res[k] = 0;
+      }
+      steps += tp.nops;
+    }
+    sh.arrived.store(0, std::memory_order_relaxed);
+    sh.done.store(0, std::memory_order_relaxed);
+    for (int i = 0; i < kThreads; ++i)
+      if (sh.th[i].nops)
+        sh.th[i].go.store(r, std::memory_order_release);
+    int idle = 0;
+    while (sh.done.load(std::memory_order_acquire) != sh.nactive) {
+      if (++idle > 2000) {
+        sched_yield();
+        idle = 0;
+      }
+    }
+    long long state = (long long)req->state_.load();
+    long long drain;
+    {
+      auto g = req->getUpdate();
+      drain = !g.has_value() ? 0 : (g.value().id ? g.value().id : -1);
+    }
+    req->~Req();
+    long long live = LiveCount::n().load();
+    char head[200];
+    snprintf(head, sizeof(head), "{\"e\":\"Round\",\"round\":%lld,\"mode\":\"%s\",\"nc\":%d,\"np\":%d,\"stuck\":0,\"c\":[",
+             r, mode, nc, np);
+    rec = head;
+    // run-length form, per thread in program order (see the comment above): calls that returned nothing
+    // new are counted, not listed
+    for (int i = 0; i < 3 + np; ++i) {
+      if (i >= nc && i < 3)
+        continue;
+      if (i == 3)
+        rec += "],\"p\":[";
+      rec += (i == 0 || i == 3) ? "[" : ",[";
+      const bool consumer = i < 3;
+      int run = 0;
+      bool first = true;
+      auto put = [&](long long v) {
+        if (!first)
+          rec += ',';
+        first = false;
+        rec += std::to_string(v);
+      };
+      for (int k = 0; k < sh.th[i].nops; ++k) {
+        int x = sh.th[i].res[k];
+        if (consumer) {
+          if (x == 0)
+            continue; // getUpdate() returned nothing
+          if (x == -2) {
+            ++run; // requestUpdate()
+            continue;
+          }
+          if (run)
+            put(-run);
+          run = 0;
+          put(x == -1 ? 0 : x); // 0: an engaged result that holds a moved-from object
+        } else {
+          if (x == 0 || x == -2) {
+            ++run; // tryEmplaceUpdate() / updateRequested() returned false
+            continue;
+          }
+          if (run)
+            put(-run);
+          run = 0;
+          put(x == -1 ? 0 : x); // 0: updateRequested() returned true
+        }
+      }
+      if (run)
+        put(-run);
+      rec += ']';
+    }
+    char tail[120];
+    // "drain" has the form of a consumer history: [] nothing, [v], [0] moved-from object
+    std::string dr = drain == 0 ? "" : std::to_string(drain == -1 ? 0 : drain);
+    snprintf(tail, sizeof(tail), "],\"state\":%lld,\"drain\":[%s],\"live\":%lld}\n", state, dr.c_str(), live);
+    rec += tail;
+    {
+      std::lock_guard<std::mutex> lk(fileMu);
+      fwrite(rec.data(), 1, rec.size(), f);
+    }
+    progress.store(r + 1, std::memory_order_release);
+  }
+  finished.store(1, std::memory_order_release);
+  for (int i = 0; i < kThreads; ++i)
+    sh.th[i].go.store(-2, std::memory_order_release);
+  for (auto& t : threads)
+    t.join();
+  watchdog.join();
+  fclose(f);
+  printf("DRIVER executions=%lld steps=%lld completed=%lld deadlocks=0 diverged=0 stuck=0\n", rounds, steps, rounds);
+  fflush(stdout);
+  return 0;
+}
+
 int main(int argc, char** argv) {
   drv::Args a(argc, argv);
   int rc;
+  if (a.has("stress")) {
+    if (a.str("payload", "tracked") == "pod")
+      rc = runStress<LiteC>(a);
+    else
+      rc = runStress<LiteZ>(a);
+    fflush(stdout);
+    _exit(rc);
+  }
   if (a.str("payload", "tracked") == "pod")
     rc = runAll<Pod>(a);
   else
